@@ -162,13 +162,13 @@ theorem ackAt_eq (sp : SpecSt) (s : MSt) (now : Int) (h : Rel sp s) : ackAt sp n
   simp [ackAt, ackNow, ranOut_eq sp s now h, h.2.1]
 
 theorem rel_getAck (sp : SpecSt) (s : MSt) (now : Int) (h : Rel sp s) :
-    Rel { state := s.base.state, ack := (getAck s now).1.ack, comments := s.comments, inDt := s.inDowntime,
+    Rel { state := s.base.state, ack := (getAck s now).1.ack, comments := s.comments, inDt := sp.inDt,
           expiry := if (getAck s now).1.ack == .none then 0 else sp.expiry } (getAck s now).1 := by
   obtain ⟨h1, h2, h3, h4, h5⟩ := h
   cases he : expired s now
-  · simp [getAck_of_not_expired, he, Rel]
+  · simp [getAck_of_not_expired, he, Rel, h5]
     intro ha; simp [ha, h3 ha]
-  · simp [getAck_of_expired, he, Rel]
+  · simp [getAck_of_expired, he, Rel, h5]
 
 theorem getAck_ack (s : MSt) (now : Int) : (getAck s now).1.ack = ackNow s now := by
   cases he : expired s now <;> simp [getAck_of_not_expired, getAck_of_expired, he, ackNow]
@@ -181,40 +181,67 @@ theorem getAck_rest (s : MSt) (now : Int) :
     (getAck s now).1.inDowntime = s.inDowntime := by
   cases he : expired s now <;> simp [getAck_of_not_expired, getAck_of_expired, he]
 
+/-- The clauses of a look at which nothing but the lazy expiry can happen (advance, dropped result, refused
+    acknowledge, pump, downtime), for a state `s'` that the bookkeeping `sp'` describes. -/
+theorem look_clauses (c : Cfg) (sp' : SpecSt) (s' : MSt) (now : Int) (acc : Bool) (h : Rel sp' s') (cl : Clause) :
+    first (lookChecks sp' now sp'.inDt cl (obsOf c ((getAck s' now).1, { acc := acc, nClr := (getAck s' now).2 }))) = none := by
+  have hr := ranOut_eq sp' s' now h
+  have ha := ackAt_eq sp' s' now h
+  have hd : sp'.inDt = s'.inDowntime := h.2.2.2.2
+  simp [lookChecks, obsOf, first, common, ha, hr, hd, getAck_ack, getAck_cnt, getAck_rest, handledOf]
+  cases he : expired s' now <;> simp [ackNow, he]
+
 theorem spec_step_advance (c : Cfg) (sp : SpecSt) (s : MSt) (now : Int) (h : Rel sp s) :
     specStep c sp (.advance now) (obsOf c (step c s (.advance now))) = none ∧
     Rel (specNext sp (.advance now) (obsOf c (step c s (.advance now)))) (step c s (.advance now)).1 := by
-  have hr := ranOut_eq sp s now h
-  have ha := ackAt_eq sp s now h
   have hrel := rel_getAck sp s now h
   rw [step_advance]
   refine ⟨?_, ?_⟩
-  · simp [specStep, obsOf, first, common, Op.now, ha, hr, getAck_ack, getAck_cnt, handledOf]
-    cases he : expired s now <;> simp [ackNow, he]
+  · exact look_clauses c sp s now true h .ackFrame
   · simpa [specNext, obsOf, getAck_rest] using hrel
-
 
 theorem spec_step_stale (c : Cfg) (sp : SpecSt) (s : MSt) (new : SState) (es ee now : Int) (h : Rel sp s)
     (hst : stale s.base ⟨new, es, now⟩ = true) :
     specStep c sp (.result new es ee now) (obsOf c (step c s (.result new es ee now))) = none ∧
     Rel (specNext sp (.result new es ee now) (obsOf c (step c s (.result new es ee now)))) (step c s (.result new es ee now)).1 := by
-  have hr := ranOut_eq sp s now h
-  have ha := ackAt_eq sp s now h
   have hrel := rel_getAck sp s now h
   rw [step_result_stale c s new es ee now hst]
   refine ⟨?_, ?_⟩
-  · simp [specStep, obsOf, first, common, Op.now, ha, hr, getAck_ack, getAck_cnt, handledOf]
-    cases he : expired s now <;> simp [ackNow, he]
+  · exact look_clauses c sp s now false h .unchangedKeeps
+  · simpa [specNext, obsOf, getAck_rest] using hrel
+
+theorem spec_step_pump (c : Cfg) (sp : SpecSt) (s : MSt) (now : Int) (fired : Bool) (h : Rel sp s) :
+    specStep c sp (.pump now fired) (obsOf c (step c s (.pump now fired))) = none ∧
+    Rel (specNext sp (.pump now fired) (obsOf c (step c s (.pump now fired)))) (step c s (.pump now fired)).1 := by
+  have h' : Rel { sp with comments := (pumped s now fired).comments } (pumped s now fired) := by
+    obtain ⟨h1, h2, h3, h4, h5⟩ := h
+    exact ⟨h1, h2, h3, rfl, h5⟩
+  have hrel := rel_getAck _ _ now h'
+  rw [step_pump]
+  refine ⟨?_, ?_⟩
+  · exact look_clauses c { sp with comments := (pumped s now fired).comments } (pumped s now fired) now true h' .ackFrame
+  · simpa [specNext, obsOf, getAck_rest, pumped] using hrel
+
+theorem spec_step_downtime (c : Cfg) (sp : SpecSt) (s : MSt) (on : Bool) (now : Int) (h : Rel sp s) :
+    specStep c sp (.downtime on now) (obsOf c (step c s (.downtime on now))) = none ∧
+    Rel (specNext sp (.downtime on now) (obsOf c (step c s (.downtime on now)))) (step c s (.downtime on now)).1 := by
+  have h' : Rel { sp with inDt := on } { s with inDowntime := on } := by
+    obtain ⟨h1, h2, h3, h4, h5⟩ := h
+    exact ⟨h1, h2, h3, h4, rfl⟩
+  have hrel := rel_getAck _ _ now h'
+  rw [step_downtime]
+  refine ⟨?_, ?_⟩
+  · exact look_clauses c { sp with inDt := on } { s with inDowntime := on } now true h' .ackFrame
   · simpa [specNext, obsOf, getAck_rest] using hrel
 
 theorem spec_step_remove (c : Cfg) (sp : SpecSt) (s : MSt) (via : RVia) (now : Int) (h : Rel sp s) :
     specStep c sp (.remove via now) (obsOf c (step c s (.remove via now))) = none ∧
     Rel (specNext sp (.remove via now) (obsOf c (step c s (.remove via now)))) (step c s (.remove via now)).1 := by
-  obtain ⟨h1, h2, h3, h4⟩ := h
+  obtain ⟨h1, h2, h3, h4, h5⟩ := h
   rw [step_remove]
   refine ⟨?_, ?_⟩
-  · cases ha : s.ack <;> simp [specStep, obsOf, first, common, handledOf, h2, ha, Ack.ind]
-  · simp [specNext, obsOf, Rel]
+  · cases ha : s.ack <;> simp [specStep, obsOf, first, common, handledOf, h2, h5, ha, Ack.ind]
+  · simp [specNext, obsOf, Rel, h5]
 
 theorem spec_step_ack (c : Cfg) (sp : SpecSt) (s : MSt) (via : Via) (sticky notify persistent : Bool) (expiry now : Int)
     (h : Rel sp s) :
@@ -224,6 +251,7 @@ theorem spec_step_ack (c : Cfg) (sp : SpecSt) (s : MSt) (via : Via) (sticky noti
   have hr := ranOut_eq sp s now h
   have ha := ackAt_eq sp s now h
   have hrel := rel_getAck sp s now h
+  have hd : sp.inDt = s.inDowntime := h.2.2.2.2
   have hreq : requestedExpiry via expiry = storedExpiry via expiry := by
     cases via <;> simp [requestedExpiry, storedExpiry]
   rw [step_ack]
@@ -238,18 +266,16 @@ theorem spec_step_ack (c : Cfg) (sp : SpecSt) (s : MSt) (via : Via) (sticky noti
     by_cases hg : (¬ storedExpiry via expiry = 0 ∧ storedExpiry via expiry < now)
     · refine ⟨?_, ?_⟩
       · cases sticky <;> cases notify <;>
-          simp [specStep, obsOf, first, common, Op.now, ha, hr, hn', hreq, hg, handledOf, hnotok, ackTypeOf]
-      · simp [specNext, obsOf, Rel, hg]
+          simp [specStep, obsOf, first, common, Op.now, ha, hr, hn', hreq, hg, handledOf, hnotok, ackTypeOf, hd]
+      · simp [specNext, obsOf, Rel, hg, hd]
     · refine ⟨?_, ?_⟩
       · cases sticky <;> cases notify <;>
-          simp [specStep, obsOf, first, common, Op.now, ha, hr, hn', hreq, hg, handledOf, hnotok, ackTypeOf]
-      · cases sticky <;> simp [specNext, obsOf, Rel, hg, hreq, ackTypeOf]
+          simp [specStep, obsOf, first, common, Op.now, ha, hr, hn', hreq, hg, handledOf, hnotok, ackTypeOf, hd]
+      · cases sticky <;> simp [specNext, obsOf, Rel, hg, hreq, ackTypeOf, hd]
   · -- refused
     refine ⟨?_, ?_⟩
-    · simp [specStep, obsOf, first, common, Op.now, ha, hr, getAck_ack, getAck_cnt, handledOf]
-      cases he : expired s now <;> simp [ackNow, he]
+    · exact look_clauses c sp s now false h .ackFrame
     · simpa [specNext, obsOf, getAck_rest] using hrel
-
 
 theorem changed_eq (c : Cfg) (a b : SState) : changed c a b = stateChange c.kind a b := by
   simp [changed, stateChange_eq_proj]
@@ -264,7 +290,7 @@ theorem spec_step_result (c : Cfg) (sp : SpecSt) (s : MSt) (new : SState) (es ee
     Rel (specNext sp (.result new es ee now) (obsOf c (step c s (.result new es ee now)))) (step c s (.result new es ee now)).1 := by
   have hr := ranOut_eq sp s now h
   have ha := ackAt_eq sp s now h
-  obtain ⟨h1, h2, h3, h4⟩ := h
+  obtain ⟨h1, h2, h3, h4, h5⟩ := h
   rw [step_result c s new es ee now hst]
   have hch : changed c sp.state new = stateChange c.kind s.base.state new := by rw [h1, changed_eq]
   cases hs : s.ack
@@ -272,16 +298,16 @@ theorem spec_step_result (c : Cfg) (sp : SpecSt) (s : MSt) (new : SState) (es ee
     have he : expired s now = false := not_expired_of_none s now hs
     refine ⟨?_, ?_⟩
     · cases hsc : stateChange c.kind s.base.state new <;> cases hok : isOK c.kind new <;>
-        simp [specStep, obsOf, first, common, Op.now, ha, hr, he, hch, hsc, hok, hs, h4, ackNow, ackAfterResult,
+        simp [specStep, obsOf, first, common, Op.now, ha, hr, he, hch, hsc, hok, hs, h4, h5, ackNow, ackAfterResult,
           clearsOnChange, handledOf, problemOf, stepCore_state]
     · cases hsc : stateChange c.kind s.base.state new <;> cases hok : isOK c.kind new <;>
-        simp [specNext, obsOf, Rel, he, hsc, hok, hs, ackNow, ackAfterResult, clearsOnChange, stepCore_state, h4]
+        simp [specNext, obsOf, Rel, he, hsc, hok, hs, ackNow, ackAfterResult, clearsOnChange, stepCore_state, h4, h5]
   all_goals
     have h3' : sp.expiry = s.expiry := h3 (by simp [hs])
     cases he : expired s now <;> cases hsc : stateChange c.kind s.base.state new <;> cases hok : isOK c.kind new <;>
-      cases hsend : sendNotification c s.base new <;> cases hp : s.suppPending <;>
-      simp [specStep, obsOf, first, common, Op.now, ha, hr, he, hch, hsc, hok, hs, h4, ackNow, ackAfterResult,
-        clearsOnChange, handledOf, problemOf, stepCore_state, specNext, Rel, h3', hsend, hp]
+      cases hsend : sendNotification c s.base new <;> cases hp : s.suppPending <;> cases hdt : s.inDowntime <;>
+      simp [specStep, obsOf, first, common, Op.now, ha, hr, he, hch, hsc, hok, hs, h4, h5, ackNow, ackAfterResult,
+        clearsOnChange, handledOf, problemOf, stepCore_state, specNext, Rel, h3', hsend, hp, hdt]
 
 
 /-- Every operation keeps the relation and satisfies the specification. -/
@@ -295,6 +321,8 @@ theorem spec_step (c : Cfg) (sp : SpecSt) (s : MSt) (op : Op) (h : Rel sp s) :
   | ack via sticky notify persistent expiry now => exact spec_step_ack c sp s via sticky notify persistent expiry now h
   | remove via now => exact spec_step_remove c sp s via now h
   | advance now => exact spec_step_advance c sp s now h
+  | pump now fired => exact spec_step_pump c sp s now fired h
+  | downtime on now => exact spec_step_downtime c sp s on now h
 
 theorem spec_trace_rel (c : Cfg) (ops : List Op) :
     ∀ (sp : SpecSt) (s : MSt), Rel sp s → specTrace c sp (trace c s ops) = none := by
@@ -345,6 +373,8 @@ theorem step_balance (c : Cfg) (s : MSt) (op : Op) :
     · simpa using getAck_balance s now
   | remove via now => rw [step_remove]; simp [Ack.ind]
   | advance now => rw [step_advance]; simpa using getAck_balance s now
+  | pump now fired => rw [step_pump]; simpa [pumped] using getAck_balance (pumped s now fired) now
+  | downtime on now => rw [step_downtime]; simpa using getAck_balance { s with inDowntime := on } now
 
 theorem totals_balance (c : Cfg) (ops : List Op) :
     ∀ s : MSt, s.ack.ind + (totals c s ops).1 = (totals c s ops).2 + (run c s ops).ack.ind := by
